@@ -45,7 +45,7 @@ fn caller(id: usize, ops: usize, seed: u64, dir: &str, log: &Mutex<Vec<String>>,
     let problem = |s: String| log.lock().unwrap().push(format!("caller {id}: {s}"));
     for k in 0..ops {
         let tag = ((id as u64) << 32) | k as u64;
-        match rng.below(6) {
+        match rng.below(8) {
             0 | 1 => {
                 // unique block written at a unique offset, read back
                 let off = (k * 64) as libc::off_t;
@@ -88,6 +88,38 @@ fn caller(id: usize, ops: usize, seed: u64, dir: &str, log: &Mutex<Vec<String>>,
                 let e = errno();
                 if r != -1 || e != libc::ENOTSOCK {
                     problem(format!("op {k} recv(regular file) returned {r} errno {e}, expected -1/ENOTSOCK"));
+                }
+            }
+            6 => {
+                // negative completion compared with what the native call answers: mkdirat below /sys
+                let d = format!("/sys/verif-c27-{id}-{k}\0");
+                oc::set_errno(0);
+                let nr = unsafe { libc::mkdirat(libc::AT_FDCWD, d.as_ptr().cast(), 0o700) };
+                let ne = errno();
+                oc::set_errno(0);
+                let r = oc::mkdirat(None, libc::AT_FDCWD, d.as_ptr().cast(), 0o700);
+                let e = errno();
+                if nr == -1 && (r != -1 || e != ne) {
+                    problem(format!("op {k} mkdirat(/sys/..) returned {r} errno {e}, expected -1/errno {ne} like the native call"));
+                }
+            }
+            7 => {
+                // negative completion: write to a memfd sealed against writes (EPERM)
+                let r = unsafe {
+                    let m = libc::memfd_create(c"verif-c27".as_ptr(), libc::MFD_ALLOW_SEALING);
+                    let _ = libc::fcntl(m, libc::F_ADD_SEALS, libc::F_SEAL_WRITE | libc::F_SEAL_GROW | libc::F_SEAL_SHRINK);
+                    let b = [1u8; 4];
+                    oc::set_errno(0);
+                    let nr = libc::pwrite(m, b.as_ptr().cast(), 4, 0);
+                    let ne = errno();
+                    oc::set_errno(0);
+                    let r = oc::pwrite(None, m, b.as_ptr().cast(), 4, 0);
+                    let e = errno();
+                    libc::close(m);
+                    (nr, ne, r, e)
+                };
+                if r.0 == -1 && (r.2 != -1 || r.3 != r.1) {
+                    problem(format!("op {k} pwrite(sealed memfd) returned {} errno {}, expected -1/errno {} like the native call", r.2, r.3, r.1));
                 }
             }
             _ => {
@@ -175,7 +207,7 @@ fn c27(seed: u64, case: u64, out: &Out) {
     std::mem::forget(hs);
     std::mem::forget(ths);
     if let Some(p) = problems.first() {
-        let kind = if p.contains("somebody else") { "call-got-anothers-data" } else if p.contains("expected -1/") { "negative-completion-misreported" } else { "call-returned-wrong-result" };
+        let kind = if p.contains("somebody else") { "call-got-anothers-data" } else if p.contains("expected -1/") || p.contains("like the native call") { "negative-completion-misreported" } else { "call-returned-wrong-result" };
         out.end(case, Verdict::Violated, &format!("C27/{kind}"), true, &fp, obs, p);
     } else if finished < total {
         let ctx = if forced && paused > 0 { "completion-arrived-before-the-caller-registered" } else if threads > 0 { "with-plain-thread-caller" } else { "coroutine-callers" };
